@@ -1225,7 +1225,10 @@ class LiteralData(Packet):
         _bytes += self.format.encode('latin-1')
         _bytes += bytearray([len(self.filename)])
         _bytes += self.filename.encode('latin-1')
-        _bytes += self.int_to_bytes(calendar.timegm(self.mtime.timetuple()), 4)
+        mtime = calendar.timegm(self.mtime.timetuple())
+        if mtime >= 1 << 32:
+            raise ValueError("literal data time does not fit in four octets")
+        _bytes += self.int_to_bytes(mtime, 4)
         _bytes += self._contents
         return _bytes
 
